@@ -375,7 +375,7 @@ class C08(CheckBase):
         finished, exc = w.stop_provider_guarded(plan['stop']['send_end'], max_virtual=plan['world']['max_subscription_duration'] * 8 + 120)
         if not finished:
             ctx.violation('C08.end', 'stop_all-does-not-return', 'SdcProvider.stop_all() did not return (live subscriptions '
-                                                                 'never get their SubscriptionEnd):\n' + s.stacks(limit=8)[-3000:])
+                                                                 'never get their SubscriptionEnd):\n' + s.stacks(limit=10, only_forever=True)[:6000])
         t_stop1 = s.now
         s.sleep(0.5)
         self._note_failures(ctx, subs, eps_, other_ep, modes, w, t_stop0)
